@@ -276,6 +276,10 @@ class Normaliser:
                 return Poly.atom('%s(%s, %s)' % (sym, a, b))
             raise NotInt(ast.unparse(e))
         if isinstance(e, ast.Call):
+            if ast.unparse(e.func) in ('struct.calcsize', 'calcsize') and len(e.args) == 1 and not e.keywords:
+                c = self._const(e)
+                if c is not None:
+                    return Poly.const(c)        # the size of a constant struct format is a constant
             inl = getattr(self, 'inliner', None)
             if inl is not None:
                 r = inl(e, self.mod, self.cls)
